@@ -8,7 +8,11 @@ PATCH=$(realpath "$1"); PROP=$2; TIER=${3:-quick}
 S=$(mktemp -d /tmp/mut_XXXXXX)
 trap 'rm -rf "$S"' EXIT
 rsync -a --exclude .git /repo/ "$S/repo/"
-rsync -a --exclude .git --exclude replays /verif/ "$S/verif/"
+if [ -n "${MUT_VERIF_HEAD:-}" ]; then   # committed state of /verif (other builders' half-edited files stay out), build products reused
+  mkdir -p "$S/verif" && git -C /verif archive HEAD | tar -x -C "$S/verif" && rsync -a /verif/lean/.lake "$S/verif/lean/"
+else
+  rsync -a --exclude .git --exclude replays /verif/ "$S/verif/"
+fi
 ( cd "$S/repo" && patch -p1 --no-backup-if-mismatch < "$PATCH" >/dev/null ) || { echo "patch does not apply"; exit 3; }
 cd "$S/verif"
 HD_REPO="$S/repo" ./check "$PROP" --tier "$TIER" 2>&1 | tail -${MUT_TAIL:-12}
